@@ -78,3 +78,86 @@ pub fn all_strings(alphabet: &[char], len: usize, f: &mut impl FnMut(&str)) {
         }
     }
 }
+
+// ---------------------------------------------------------------------------------------------
+// Rust mirror of `QV.Render.render` (lean/QV/Shared/Render.lean): canonical layout of a token list — a
+// space exactly between the `mustSep` pairs, tab indentation, floats via `{:?}`.  Used to check, on the REAL
+// lexer, that lexing the canonical layout gives the token list back (the driver also compares this text
+// with the Lean definition, character for character).
+
+fn word_spelling(t: &Token) -> Option<String> {
+    Some(match t {
+        Token::As | Token::Matrix | Token::Mutable | Token::NonBlocking | Token::Offset | Token::PauliSum
+        | Token::Permutation | Token::Sequence | Token::Sharing => t.to_string(),
+        Token::Command(c) => c.to_string(),
+        Token::DataType(d) => d.to_string(),
+        Token::Modifier(m) => m.to_string(),
+        _ => return None,
+    })
+}
+
+pub fn render_token(t: &Token) -> String {
+    if let Some(w) = word_spelling(t) {
+        return w;
+    }
+    match t {
+        Token::Bang => "!".into(),
+        Token::Colon => ":".into(),
+        Token::Comma => ",".into(),
+        Token::Comment(s) => format!("#{s}"),
+        Token::Float(f) => format!("{f:?}"),
+        Token::Identifier(s) => s.clone(),
+        Token::Indentation => "\t".into(),
+        Token::Integer(n) => n.to_string(),
+        Token::Target(s) => format!("@{s}"),
+        Token::LBracket => "[".into(),
+        Token::LParenthesis => "(".into(),
+        Token::NewLine => "\n".into(),
+        Token::Operator(o) => o.to_string(),
+        Token::RBracket => "]".into(),
+        Token::RParenthesis => ")".into(),
+        Token::Semicolon => ";".into(),
+        Token::String(s) => verif_hooks::quoted_string(s),
+        Token::Variable(s) => format!("%{s}"),
+        _ => unreachable!(),
+    }
+}
+
+fn is_word_like(t: &Token) -> bool {
+    matches!(t, Token::Identifier(_) | Token::Target(_) | Token::Variable(_)) || word_spelling(t).is_some()
+}
+fn starts_word_or_number(t: &Token) -> bool {
+    matches!(t, Token::Identifier(_) | Token::Integer(_) | Token::Float(_)) || word_spelling(t).is_some()
+}
+pub fn must_sep(a: &Token, b: &Token) -> bool {
+    match (a, b) {
+        (_, Token::Indentation) | (Token::Indentation, _) => false,
+        (Token::NewLine, Token::NewLine) => true,
+        (Token::Integer(_) | Token::Float(_), b) => starts_word_or_number(b),
+        (a, Token::Operator(o)) if o.to_string() == "-" => is_word_like(a),
+        (a, b) => is_word_like(a) && starts_word_or_number(b),
+    }
+}
+pub fn render_tokens(ts: &[Token]) -> String {
+    let mut out = String::new();
+    for (i, t) in ts.iter().enumerate() {
+        if i > 0 && must_sep(&ts[i - 1], t) {
+            out.push(' ');
+        }
+        out.push_str(&render_token(t));
+    }
+    out
+}
+
+/// `(rerender "text")` -> `(rendered "canonical text" <real lexer on the canonical text>)` / `(err)`.
+pub fn rerender_case(ctx: &mut Ctx, text: &str) {
+    let t = text.to_string();
+    ctx.case(tagged("rerender", vec![st(text)]), move || match verif_hooks::lex_tokens(&t) {
+        Ok(tokens) => {
+            let r = render_tokens(&tokens);
+            let back = lex_out(&r);
+            tagged("rendered", vec![st(r), back])
+        }
+        Err(_) => tagged("err", vec![]),
+    });
+}
